@@ -95,10 +95,10 @@ def updReports (reports : List (String × Bool)) (pre : St) (op : Op) (out : Out
   | .setEndpoints l => if out == .ok then reports.filter fun p => l.contains p.1 else reports
   | _ => reports
 
-/-- the endpoints are exactly the ids of the most recently accepted list, and each one's priority is
-    a position of its id in that list (an id listed twice: either position) -/
+/-- the table is the accepted list: one entry per distinct name, ranked by first occurrence (F29) -/
 def listMatches (l : List String) (post : St) : Bool :=
-  (post.eps.all fun e => l[e.prio]? == some e.id) && l.all fun id => (ids post.eps).contains id
+  (post.eps.all fun e => l.eraseDups[e.prio]? == some e.id) && (l.all fun id => (ids post.eps).contains id) &&
+    post.eps.length == l.eraseDups.length
 
 def statusMatchesReports (reports : List (String × Bool)) (post : St) : Bool :=
   post.eps.all fun e =>
@@ -154,9 +154,9 @@ def handle (sess : Sess) (rep : Report) (ln : Nat) (toks : List String) (obs : S
       | some s =>
         let mine := s!"ok ; {digest s}"
         if mine == obs then
-          ({ model := some s, shadow := some s, impl := parseDigest r d dig, monitored := r ≥ 0 && d ≥ 0, r := r, d := d, lastList := decList (arg a "eps"),
+          ({ model := some s, shadow := some s, impl := parseDigest (max r 0) (max d 0) dig, monitored := true, r := r, d := d, lastList := decList (arg a "eps"),
              downAt := (decList (arg a "eps")).map fun id => (id, 0) }, rep)
-        else ({ model := none, shadow := some s, impl := parseDigest r d dig, monitored := r ≥ 0 && d ≥ 0, r := r, d := d, lastList := decList (arg a "eps"),
+        else ({ model := none, shadow := some s, impl := parseDigest (max r 0) (max d 0) dig, monitored := true, r := r, d := d, lastList := decList (arg a "eps"),
                 downAt := (decList (arg a "eps")).map fun id => (id, 0) },
               { rep.msg s!"DIVERGE line={ln} model={mine} impl={obs}" with diverged := rep.diverged + 1 })
     | _, _ => (sess, rep.msg s!"BAD line={ln}")
@@ -165,7 +165,7 @@ def handle (sess : Sess) (rep : Report) (ln : Nat) (toks : List String) (obs : S
     | none => (sess, rep.msg s!"BAD line={ln}")
     | some op =>
       if sess.impl.isNone then (sess, rep.bump "me.skipped_no_episode") else
-      let implPost := parseDigest sess.r sess.d dig
+      let implPost := parseDigest (max sess.r 0) (max sess.d 0) dig
       -- monitors and evidence counters run on what the implementation printed — also after the model
       -- has been lost to a divergence earlier in the episode
       let (rep, reports) := match sess.impl, implPost, parseOut outS with
